@@ -3,33 +3,42 @@
 Observed: get_closest_point_to_origin(Y, n, inf) (Jolt GJK) and
 distance_subalgorithm_with_backup_procedure(simplex, Solution(), True) (original GJK).
 
-Proofs : coq/theories/Props/C18.v (model Model/Simplex.v, checker Checker/Kkt.v).
-Verdict: for every case and both solvers the Coq-proven certificate `c18_cert`
-         (Checker/Kkt.v, theorem c18_cert_sound) is evaluated by vm_compute inside coqc
-         on the exact rationals of the implementation's binary64 inputs and outputs:
-           (1) a witness q (exact optimum from an untrusted Python oracle, with carrier and
-               weights) passes kkt_cert with tau = 0  =>  q IS the minimum-norm point of conv Y;
-           (2) | |p| - |q| | <= e ;
-           (3) p is within e of conv(returned subset) (witness weights: untrusted, exact);
+Proofs : coq/theories/Props/C18.v (models Model/Simplex.v, Model/SimplexOrig.v; checkers
+         Checker/Kkt.v (rationals, used by the in-Coq lattice theorems) and Checker/KktZ.v
+         (integers, used here)).
+Verdict: for every case and both solvers the Coq-proven certificate `c18_z` (Checker/KktZ.v,
+         theorems c18_z_sound / c18_z_min_norm) is evaluated by vm_compute inside coqc on the
+         exact values of the implementation's binary64 inputs and outputs (all numbers are
+         passed as binary64 literals and scaled by one power of two 2^N to integers):
+           (1) an untrusted witness (exact optimum from a Python oracle, weights rounded to
+               multiples of 2^-128) passes kkt_z with slack 2^-120 L^2: a point q of the hull with
+               |q|^2 <= |x|^2 + 2^-119 L^2 for all x in conv Y;
+           (2) |p| <= |x| + e for all x in conv Y;
+           (3) p is within e of conv(returned subset) (witness weights untrusted);
            (4) original solver only: returned weights >= 0, |sum - 1| <= 1e-9, reproduce p
-               from the returned (reordered) subset within e  (bary_cert);
-         with e = 1e-9 * max(1, largest coordinate magnitude of the input points).  Since
-         max|coordinate| <= max|y_i|, e is at most the property tolerance 1e-9 * L,
-         L = max(1, max |y_i|) (DESIGN 3.1): acceptance implies the property.
-Tie    : the Coq model (binary64 instance) is run on the same inputs.  On integer
-         lattices binary64 arithmetic is exact up to the final divisions, so returned
-         point, squared norm and bit set must be bit-identical.  On real inputs numba's
-         np.dot may differ from the model's left-to-right dot by an ulp, so the bit set is
-         compared only where the model's own answer is stable under 8 random relative
-         1e-12 perturbations of the input (decision margins clear), and the norm must lie
-         inside the model's sensitivity band over those perturbations widened by
-         1e-9*|p| + 1e-12*L.  A mismatch on a stable case is re-examined with 40 more
-         perturbations before it counts.
+               from the returned (reordered) subset in order within e  (bary_z);
+         with e = 1e-9 * max(1, largest coordinate magnitude of the input points) <= 1e-9 * L,
+         L = max(1, max |y_i|) (DESIGN 3.1).  (2)+(3) => | |p| - min norm | <= e.
+         A decoding checksum (sum of all decoded integers) is recomputed here for every case.
+Known  : failures are attributed to a known finding only inside its input class AND below the
+         class's error bound (exact rational predicates, see `classify`); anything else is a
+         VIOLATION.
+Tie    : both Coq models (binary64 instance) are run on the same inputs and every output is
+         compared (Jolt: point, squared length, bit set, both outcomes of the final
+         comparison; original: point, squared distance, weights, index order).
+         Exact streams (integer lattices / grids: every dot product, cross product and
+         cofactor is exact in binary64, so BLAS summation order or FMA cannot matter): Jolt
+         outputs must be bit-identical (v_len_sq = np.dot(v, v) within 2 ulp of the exact
+         value).  Otherwise (and for the original solver always, whose candidates are compared
+         through BLAS-computed squared distances) the discrete outputs are compared only where
+         the model's own answer is unchanged under 8 random relative 2^-50 perturbations of the
+         input (decision margins clear), the continuous ones must lie within 4x the spread over
+         those perturbations + 16 ulp of the scale.  A mismatch on a stable case is re-examined
+         with 40 more perturbations before it counts.
 """
 import itertools
 import json
 import math
-import os
 import re
 from concurrent.futures import ProcessPoolExecutor
 from fractions import Fraction as Fr
@@ -37,18 +46,26 @@ from fractions import Fraction as Fr
 from .. import common as cm
 
 PID = "C18"
-PROOF_FILES = ["theories/Props/C18.v", "theories/Checker/Kkt.v", "theories/Spec/ConvexHull.v",
+PROOF_FILES = ["theories/Props/C18.v", "theories/Checker/Kkt.v", "theories/Checker/KktZ.v",
+               "theories/Spec/ConvexHull.v", "theories/Proofs/SimplexTrace.v",
                "theories/Proofs/SimplexLine.v", "theories/Proofs/SimplexTriangle.v",
-               "theories/Proofs/SimplexLattice.v", "theories/Proofs/SimplexTransfer.v",
-               "theories/Proofs/SimplexTetra.v"]
-REL = "(1 # 1000000000)"
+               "theories/Proofs/SimplexLattice.v", "theories/Proofs/SimplexLattice4.v",
+               "theories/Proofs/SimplexOrig.v"]
 EPS = 2.0 ** -52
+MW = 128                 # witness weights are multiples of 2^-MW
+TB = 2 * MW - 120        # KKT slack T = L^2 2^TB in the checker's units, i.e. 2^-120 L^2
+N_PERT = 8
+PERT_REL = 2.0 ** -50
 
 HEADER = """From Coq Require Import List NArith ZArith QArith PrimFloat.
-From D3 Require Import Base.Ops Base.Vec Model.Simplex Model.SimplexRun Checker.Kkt.
+From D3 Require Import Base.Ops Base.Vec Model.Simplex Model.SimplexOrig Model.SimplexRun Checker.KktZ.
 Import ListNotations.
-Definition t3 (x : bool * bool * bool) : list bool := let '(a, b, c) := x in [a; b; c].
 """
+
+JOLT_CODES = [1, 2, 3, 4, 5, 6, 7, 8, 10, 11, 12, 13, 14, 20, 21, 22, 23, 24, 25, 26, 30, 31, 32,
+              40, 41, 42, 43, 44, 45, 46, 47, 51, 52, 53, 55, 56, 57, 60, 61]
+ORIG_CODES = [91, 92, 93, 94] + [100 + 3 * c + r for c in (1, 2, 3, 4, 5, 6, 7, 11, 12, 13, 14) for r in (0, 1, 2)] \
+    + [100 + 3 * c + r for c in (8, 9, 10) for r in (1, 2)]
 
 
 # ------------------------------------------------------------------ exact oracle (untrusted)
@@ -131,13 +148,31 @@ def oracle(Y):
 
 def nearest_weights(sub_pts, p):
     """exact weights (>= 0, sum 1, one per point of sub_pts) of the point of conv(sub_pts)
-    nearest to p: an untrusted witness for `near_hull_cert`."""
+    nearest to p: an untrusted witness for `near_z`."""
     P, _ = _to_int([[Fr(a) - Fr(b) for a, b in zip(s, p)] for s in sub_pts])
     S, nums, den = min_norm_int(P)
     lam = [Fr(0)] * len(sub_pts)
     for i, x in zip(S, nums):
         lam[i] = Fr(x, den)
     return lam
+
+
+def round_weights(lam):
+    """Fractions >= 0 summing to 1 -> integers >= 0 summing to 2^MW (nearest multiples of 2^-MW)"""
+    W = [int(l * (1 << MW) + Fr(1, 2)) for l in lam]
+    i = max(range(len(W)), key=lambda j: W[j])
+    W[i] += (1 << MW) - sum(W)
+    assert all(w >= 0 for w in W) and sum(W) == 1 << MW
+    return W
+
+
+def expansion(W):
+    """integer 0 <= W <= 2^MW  ->  floats whose exact sum is W * 2^-MW (each chunk has <= 53 bits)"""
+    out = []
+    for chunk, shift in ((W >> 75, 75), ((W >> 22) & ((1 << 53) - 1), 22), (W & ((1 << 22) - 1), 0)):
+        if chunk:
+            out.append(math.ldexp(float(chunk), shift - MW))
+    return out or [0.0]
 
 
 # ------------------------------------------------------------------ generators
@@ -149,6 +184,36 @@ def lattice_all(k, vals=(-1.0, 0.0, 1.0)):
 
 def lattice_sample(rng, k, vals):
     return [[float(rng.choice(vals)) for _ in range(3)] for _ in range(k)]
+
+
+def gen_grid(rng):
+    """integer points with |coordinate| <= 72: every dot product, cross product and Johnson cofactor
+    (degree <= 6) is below 2^53, hence exact in binary64 whatever the summation order; with exact
+    duplicates / collinear / coplanar / mirrored points so that ties and boundaries occur."""
+    k = rng.choice([2, 3, 3, 4, 4, 4])
+    kind = rng.choice(["random", "random", "dup", "collinear", "coplanar", "mirror", "axis"])
+    r = rng.choice([2, 4, 8])
+    pts = [[rng.randint(-r, r) for _ in range(3)] for _ in range(k)]
+    if kind == "dup" and k > 1:
+        i = rng.randrange(k)
+        pts[(i + 1 + rng.randrange(k - 1)) % k] = list(pts[i])
+    if kind == "collinear" and k > 2:
+        i = rng.randrange(k)
+        o = [x for x in range(k) if x != i]
+        t = rng.choice([-1, 0, 1, 2])
+        pts[i] = [pts[o[0]][j] + t * (pts[o[1]][j] - pts[o[0]][j]) for j in range(3)]
+    if kind == "coplanar" and k > 3:
+        i = rng.randrange(k)
+        o = [x for x in range(k) if x != i]
+        t, u = rng.choice([-1, 0, 1, 2]), rng.choice([-1, 0, 1, 2])
+        pts[i] = [pts[o[0]][j] + t * (pts[o[1]][j] - pts[o[0]][j]) + u * (pts[o[2]][j] - pts[o[0]][j]) for j in range(3)]
+    if kind == "mirror" and k > 1:
+        i = rng.randrange(k)
+        pts[(i + 1 + rng.randrange(k - 1)) % k] = [-x for x in pts[i]]
+    if kind == "axis":
+        for p in pts:
+            p[rng.randrange(3)] = 0
+    return dict(pts=[[float(x) for x in p] for p in pts], gen=f"grid:{kind}")
 
 
 def _unit(rng):
@@ -225,36 +290,36 @@ def gen_real(rng):
     return dict(pts=pts, gen=f"real:{kind}:{mode}")
 
 
-def perturb(rng, pts, rel=1e-12):
-    L = max(1.0, max(abs(x) for p in pts for x in p))
-    return [[x * (1.0 + rel * rng.uniform(-1, 1)) + rel * L * 1e-3 * rng.uniform(-1, 1) for x in p] for p in pts]
+def gen_scaled(rng):
+    """a `real` configuration times a global scale 10^U(-7, 4): reaches the absolute thresholds"""
+    c = gen_real(rng)
+    s = 10 ** rng.uniform(-7, 4)
+    return dict(pts=[[x * s for x in p] for p in c["pts"]], gen="scaled" + c["gen"][4:])
 
 
-# ------------------------------------------------------------------ Coq literals
-def ql(x):
-    x = Fr(x)
-    n, d = x.numerator, x.denominator
-    return f"({n}#{d})" if n >= 0 else f"(({n})#{d})"
+def perturb(rng, pts, rel=PERT_REL):
+    return [[x * (1.0 + rel * rng.uniform(-1, 1)) for x in p] for p in pts]
 
 
-def qv(p):
-    return "(V " + " ".join(ql(x) for x in p) + ")"
+def is_exact_stream(gen):
+    return gen.startswith("lattice") or gen.startswith("grid")
 
 
-def qlist(xs):
-    return "[" + ";".join(ql(x) for x in xs) + "]"
+# ------------------------------------------------------------------ Coq literals / parsing
+def flist(xs):
+    return "[" + ";".join(cm.fhex(x) for x in xs) + "]%float"
+
+
+def fflat(pts):
+    return flist([x for p in pts for x in p])
 
 
 def nlist(xs):
     return "[" + ";".join(str(int(i)) for i in xs) + "]%nat"
 
 
-def fv(p):
-    return "(V " + " ".join(cm.fhex(x) for x in p) + ")"
-
-
-def fY(pts):
-    return "([" + ";".join(fv(p) for p in pts) + "]%float)"
+def wlist(Ws):
+    return "[" + ";".join(flist(expansion(W)) for W in Ws) + "]"
 
 
 def parse_coq_value(s):
@@ -275,6 +340,27 @@ def unhex(xs):
     return [float.fromhex(x) for x in xs]
 
 
+def scale_bits(xs):
+    """smallest N >= 0 with x * 2^N an integer for all finite floats x"""
+    n = 0
+    for x in xs:
+        if x != 0.0 and math.isfinite(x):
+            n = max(n, Fr(x).denominator.bit_length() - 1)
+    return n
+
+
+def _fdot(a, b):
+    return a[0] * b[0] + a[1] * b[1] + a[2] * b[2]
+
+
+def _fsub(a, b):
+    return [a[0] - b[0], a[1] - b[1], a[2] - b[2]]
+
+
+def _fcross(a, b):
+    return [a[1] * b[2] - a[2] * b[1], a[2] * b[0] - a[0] * b[2], a[0] * b[1] - a[1] * b[0]]
+
+
 def affinely_dependent(pts):
     """exact: the k points do not span a (k-1)-dimensional affine subspace"""
     P, _ = _to_int([[Fr(x) for x in p] for p in pts])
@@ -289,103 +375,155 @@ def affinely_dependent(pts):
     return _det3(d) == 0
 
 
+# ------------------------------------------------------------------ known-finding classes (exact predicates)
+QEPS = Fr(2) ** -52
+QEPS_SQR = QEPS * QEPS
+QEPS_ORIG = 10 * QEPS
+
+
+def _johnson(Y):
+    """exact Johnson cofactors Delta_i of the full simplex Y (k = 4) and their sum (the Gram determinant)"""
+    p0 = Y[0]
+    E = [_fsub(p, p0) for p in Y[1:]]
+    G = [[_fdot(E[i], E[j]) for j in range(3)] for i in range(3)]
+    b = [-_fdot(p0, E[i]) for i in range(3)]
+    D = _det3(G)
+    mus = []
+    for c in range(3):
+        Mc = [[(b[r] if cc == c else G[r][cc]) for cc in range(3)] for r in range(3)]
+        mus.append(_det3(Mc))
+    return [D - sum(mus)] + mus, D
+
+
+def geometry(pts):
+    """Exact (rational) shape measures of a configuration, over its DISTINCT points:
+    rho3(T) = |ab x ac|^2 / (longest edge^2)^2 for every triangle, rho4 = (6 Vol)^2 / (longest edge^2)^3
+    for the tetrahedron (k = 4, distinct); minrho = their minimum (1 if none);
+    plane_band: the +-EPSILON band of origin_outside_of_tetrahedron_planes is hit (exact signd of one
+    strict sign, some |signp_i| <= 2 EPSILON); tiny_tri: a triangle with 0 < |n|^2 < 2 EPSILON^2;
+    orig_band: origin strictly inside (all four exact cofactors > 0) and the smallest <= 2 * (10 eps)."""
+    Y = [[Fr(x) for x in p] for p in pts]
+    k = len(Y)
+    D = []
+    for p in Y:
+        if p not in D:
+            D.append(p)
+    rho = []
+    tiny = False
+    for a, b, c in itertools.combinations(D, 3):
+        ab, ac, bc = _fsub(b, a), _fsub(c, a), _fsub(c, b)
+        e = max(_fdot(ab, ab), _fdot(ac, ac), _fdot(bc, bc))
+        n = _fcross(ab, ac)
+        n2 = _fdot(n, n)
+        rho.append(n2 / (e * e))
+        if 0 < n2 < 2 * QEPS_SQR:
+            tiny = True
+    band = orig_band = False
+    if k == 4 and len(D) == 4:
+        a, b, c, d = Y
+        ab, ac, ad, bd, bc = _fsub(b, a), _fsub(c, a), _fsub(d, a), _fsub(d, b), _fsub(c, b)
+        e = max(_fdot(_fsub(Y[i], Y[j]), _fsub(Y[i], Y[j])) for i in range(4) for j in range(i))
+        v6 = _fdot(ad, _fcross(ab, ac))
+        rho.append(v6 * v6 / (e * e * e))
+        n0, n1, n2_, n3 = _fcross(ab, ac), _fcross(ac, ad), _fcross(ad, ab), _fcross(bd, bc)
+        signp = [_fdot(a, n0), _fdot(a, n1), _fdot(a, n2_), _fdot(b, n3)]
+        signd = [_fdot(ad, n0), _fdot(ab, n1), _fdot(ac, n2_), -_fdot(ab, n3)]
+        same = all(x > 0 for x in signd) or all(x < 0 for x in signd)
+        band = bool(same and any(abs(x) <= 2 * QEPS for x in signp))
+        De, S = _johnson(Y)
+        orig_band = bool(S > 0 and all(x > 0 for x in De) and min(De) <= 2 * QEPS_ORIG)
+    minrho = min(rho) if rho else Fr(1)
+    return dict(k=k, minrho=minrho, aspect=math.sqrt(float(minrho)), plane_band=band, tiny_tri=tiny,
+                orig_band=orig_band)
+
+
+def classify(solver, gen, pts, err_rel):
+    """Known-finding ids whose input class contains `pts` AND whose error bound covers the observed
+    relative error `err_rel` (= max(norm error, distance to the hull of the subset) / L).
+      *-ILLCOND : k >= 3, input not on an exact lattice/grid, thin sub-simplex:
+                  jolt: err_rel <= 4 eps / aspect ; orig: err_rel <= 4 eps / aspect^2
+                  (scans: 0.31 resp. 0.40 instead of 4); as failures need err_rel > 1e-9 this
+                  confines the classes to aspect < 8.9e-7 resp. 9.4e-4.
+      *-EPS-ABS : the absolute-epsilon bands (see `geometry`); error at most the size of the input."""
+    g = geometry(pts)
+    out = []
+    if is_exact_stream(gen) or not math.isfinite(err_rel):
+        return out, g
+    M = max(abs(x) for p in pts for x in p)
+    L = max(1.0, M)
+    rho = g["minrho"]
+    if g["k"] >= 3 and err_rel * L <= 2 * M:
+        if solver == "jolt" and Fr(err_rel) * Fr(err_rel) * rho <= (4 * QEPS) ** 2:
+            out.append("C18-JOLT-ILLCOND")
+        if solver == "orig" and Fr(err_rel) * rho <= 4 * QEPS:
+            out.append("C18-ORIG-ILLCOND")
+    if solver == "jolt" and (g["plane_band"] or g["tiny_tri"]) and err_rel * L <= 2 * M:
+        out.append("C18-JOLT-EPS-ABS")
+    if solver == "orig" and g["orig_band"] and err_rel * L <= 2 * M:
+        out.append("C18-ORIG-EPS-ABS")
+    return out, g
+
+
 # ------------------------------------------------------------------ per-case preparation (worker pool)
+def _isfinite_all(xs):
+    return all(math.isfinite(x) for x in xs)
+
+
 def prepare(args):
-    """case + implementation result -> Coq expression (certificates and model runs)."""
-    pts, r, perts = args
+    """case + implementation result -> Coq expression (certificates and model runs) + python-side data."""
+    pts, r, perts, jolt_perts = args
     k = len(pts)
     S, lam, q = oracle(pts)
-    Y = "[" + ";".join(qv(p) for p in pts) + "]%Q"
-    certs = []
-    layout = []
+    Wq = round_weights(lam)
+    flatY = [x for p in pts for x in p]
+    info = dict(q=[float(x) for x in q], nq=math.sqrt(float(sum(x * x for x in q))), S=S,
+                dep=affinely_dependent(pts), layout=[], check={}, mag={})
+    allnums = list(flatY)
+    sol = {}
     j = r["jolt"]
     if "exc" not in j and j.get("success"):
         p = unhex(j["v"])
         sub = bits_idx(j["bits"], k)
-        if sub and all(math.isfinite(x) for x in p):
-            lamp = nearest_weights([pts[i] for i in sub], p)
-            certs.append(f"t3 (c18_cert {REL} Y {qv(p)} {nlist(sub)} {qlist(lamp)} {qv(q)} {nlist(S)} {qlist(lam)})")
-            layout.append("jolt")
+        if sub and _isfinite_all(p):
+            sol["jolt"] = (p, sub)
     o = r["orig"]
     if "exc" not in o:
         p = unhex(o["v"])
         sub = o["idx"]
         w = unhex(o["bary"])
-        if sub and all(0 <= i < k for i in sub) and all(math.isfinite(x) for x in p + w):
-            lamp = nearest_weights([pts[i] for i in sub], p)
-            certs.append(f"t3 (c18_cert {REL} Y {qv(p)} {nlist(sub)} {qlist(lamp)} {qv(q)} {nlist(S)} {qlist(lam)})")
-            layout.append("orig")
-            certs.append(f"[bary_cert Y {qv(p)} {nlist(sub)} {qlist(w)} {REL} (c18_tol {REL} Y)]")
-            layout.append("bary")
-    models = [f"jolt_f {fY(pts)}"] + [f"jolt_f {fY(pp)}" for pp in perts]
-    expr = (f"(let Y := {Y} in [" + "; ".join(certs) + "]%list, [" + "; ".join(models) + "]%list)")
-    return expr, layout, [float(x) for x in q], S, affinely_dependent(pts)
-
-
-# ------------------------------------------------------------------ known-finding classes
-def _fdot(a, b):
-    return a[0] * b[0] + a[1] * b[1] + a[2] * b[2]
-
-
-def _fsub(a, b):
-    return [a[0] - b[0], a[1] - b[1], a[2] - b[2]]
-
-
-def _fcross(a, b):
-    return [a[1] * b[2] - a[2] * b[1], a[2] * b[0] - a[0] * b[2], a[0] * b[1] - a[1] * b[0]]
-
-
-def geometry(pts):
-    """Exact (rational) shape measures of a configuration.
-    rho3(T) = |ab x ac|^2 / (longest edge^2)^2 of a triangle (sin^2 of its sharpness),
-    rho4    = (6 Vol)^2 / (longest edge^2)^3 of the tetrahedron; aspect = sqrt of the smallest
-    strictly positive rho (1.0 if none).  For k = 4 also the exact plane tests of
-    origin_outside_of_tetrahedron_planes."""
-    Y = [[Fr(x) for x in p] for p in pts]
-    k = len(Y)
-    rhos = []
-    for T in itertools.combinations(range(k), 3):
-        a, b, c = (Y[i] for i in T)
-        e = max(_fdot(_fsub(b, a), _fsub(b, a)), _fdot(_fsub(c, a), _fsub(c, a)), _fdot(_fsub(c, b), _fsub(c, b)))
-        if e > 0:
-            n = _fcross(_fsub(b, a), _fsub(c, a))
-            rhos.append(_fdot(n, n) / (e * e))
-    out = dict(k=k)
-    if k == 4:
-        a, b, c, d = Y
-        ab, ac, ad, bd, bc = _fsub(b, a), _fsub(c, a), _fsub(d, a), _fsub(d, b), _fsub(c, b)
-        e = max(_fdot(_fsub(Y[i], Y[j]), _fsub(Y[i], Y[j])) for i in range(4) for j in range(i))
-        v6 = _fdot(ad, _fcross(ab, ac))
-        if e > 0:
-            rhos.append(v6 * v6 / (e * e * e))
-        n0, n1, n2, n3 = _fcross(ab, ac), _fcross(ac, ad), _fcross(ad, ab), _fcross(bd, bc)
-        signp = [_fdot(a, n0), _fdot(a, n1), _fdot(a, n2), _fdot(b, n3)]
-        signd = [_fdot(ad, n0), _fdot(ab, n1), _fdot(ac, n2), -_fdot(ab, n3)]
-        out["signp"] = [float(x) for x in signp]
-        out["signd"] = [float(x) for x in signd]
-        same = all(x > 0 for x in signd) or all(x < 0 for x in signd)
-        out["plane_band"] = bool(same and any(abs(x) <= 2 * Fr(EPS) for x in signp))
-    pos = [x for x in rhos if x > 0]
-    out["aspect"] = math.sqrt(float(min(pos))) if pos else 1.0
-    out["exactly_degenerate"] = any(x == 0 for x in rhos)
-    return out
-
-
-# thresholds of the known-finding input classes (aspect as defined in `geometry`)
-JOLT_NEEDLE_ASPECT = 1e-6
-ORIG_ILLCOND_ASPECT = 1e-2
-
-KNOWN_CLASSES = {
-    # id -> (solver, predicate on geometry)
-    "C18-JOLT-PLANE-EPS": ("jolt", lambda g: g["k"] == 4 and g.get("plane_band", False)),
-    "C18-JOLT-NEEDLE": ("jolt", lambda g: g["k"] >= 3 and g["aspect"] < JOLT_NEEDLE_ASPECT),
-    "C18-ORIG-ILLCOND": ("orig", lambda g: g["k"] >= 3 and g["aspect"] < ORIG_ILLCOND_ASPECT),
-}
-
-
-def classify(solver, pts):
-    g = geometry(pts)
-    return [kid for kid, (s, pred) in KNOWN_CLASSES.items() if s == solver and pred(g)], g
+        if sub and all(0 <= i < k for i in sub) and _isfinite_all(p + w) and len(w) == len(sub):
+            sol["orig"] = (p, sub)
+    for name in sol:
+        allnums += sol[name][0]
+    N = scale_bits(allnums)
+    parts = []
+    for name in ("jolt", "orig"):
+        if name not in sol:
+            continue
+        p, sub = sol[name]
+        lamp = nearest_weights([pts[i] for i in sub], p)
+        Wp = round_weights(lamp)
+        parts.append(f"judge {N} {MW} {TB} Y {flist(p)} {nlist(sub)} {wlist(Wp)} {nlist(S)} WQ")
+        info["layout"].append(name)
+        info["check"][name] = sum(int(Fr(x) * (1 << N)) for x in flatY + p) + sum(Wp) + sum(Wq)
+        # magnitudes (floats, for messages and for the error bounds of the known classes only)
+        npn = math.sqrt(float(sum(Fr(x) * Fr(x) for x in p)))
+        z = [sum(l * Fr(pts[i][c]) for l, i in zip(lamp, sub)) for c in range(3)]
+        hd = math.sqrt(float(sum((Fr(a) - b) ** 2 for a, b in zip(p, z))))
+        info["mag"][name] = dict(norm=npn, err=abs(npn - info["nq"]), hull=hd)
+    certs = "[" + "; ".join(parts) + "]" if parts else "(@nil (list bool * Z))"
+    bary = "(false, 0%Z)"
+    if "orig" in sol:
+        p, sub = sol["orig"]
+        w = unhex(o["bary"])
+        Mb = scale_bits(w)
+        bary = f"judge_bary {N} {Mb} Y {flist(p)} {nlist(sub)} {flist(w)}"
+        info["check"]["bary"] = sum(int(Fr(x) * (1 << Mb)) for x in w)
+    jm = "[" + "; ".join(["jolt_ft Y"] + [f"jolt_ft {fflat(pp)}" for pp in jolt_perts]) + "]"
+    om = "[" + "; ".join(["orig_ft Y"] + [f"orig_ft {fflat(pp)}" for pp in perts]) + "]"
+    expr = (f"let Y := {fflat(pts)} in let WQ := {wlist(Wq)} in "
+            f"({certs}, {bary}, {jm}, {om}, jolt_prev Y)")
+    return expr, info
 
 
 # ------------------------------------------------------------------ running
@@ -410,22 +548,34 @@ def run_impl_cases(cases, tag):
     return out
 
 
-def evaluate(R, cases, results, n_pert, tag, per_file=250):
-    """Prepare witnesses, evaluate certificates and model runs in Coq.  Returns per case
-    dict(certs={name: [bools]}, model=[...], q=..., S=...)."""
+def evaluate(R, cases, results, tag, per_file):
+    """Prepare witnesses, evaluate certificates and model runs in Coq.  Returns one dict per case."""
     jobs = []
     for c, r in zip(cases, results):
-        perts = [perturb(R.rng, c["pts"]) for _ in range(n_pert if c["gen"].startswith("real") or c["gen"] == "corpus" else 0)]
+        perts = [perturb(R.rng, c["pts"]) for _ in range(N_PERT)]
         c["_perts"] = perts
-        jobs.append((c["pts"], r, perts))
+        jobs.append((c["pts"], r, perts, [] if is_exact_stream(c["gen"]) else perts))
     with ProcessPoolExecutor(max_workers=cm.NCPU) as ex:
         prepared = list(ex.map(prepare, jobs, chunksize=64))
     outs = cm.coq_eval_lines(PID, HEADER, [p[0] for p in prepared], tag=tag, per_file=per_file)
     ev = []
-    for (expr, layout, q, S, dep), o in zip(prepared, outs):
+    for (expr, info), o in zip(prepared, outs):
         val = parse_coq_value(o)
-        certs = {name: v for name, v in zip(layout, val[0])}
-        ev.append(dict(certs=certs, model=val[1], q=q, S=S, dep=dep))
+        e = dict(info)
+        e["certs"] = {}
+        e["decode_bad"] = []
+        for name, (bools, chk) in zip(info["layout"], val[0]):
+            e["certs"][name] = bools
+            if chk != info["check"][name]:
+                e["decode_bad"].append(name)
+        if "bary" in info["check"]:
+            e["certs"]["bary"] = val[1][0]
+            if val[1][1] != info["check"]["bary"]:
+                e["decode_bad"].append("bary")
+        e["jolt_model"] = val[2]
+        e["orig_model"] = val[3]
+        e["jolt_prev"] = val[4]
+        ev.append(e)
     return ev
 
 
@@ -435,138 +585,234 @@ def norm(v):
 
 def judge(case, r, e):
     """Property verdict for one case from the Coq certificates.  Returns a list of
-    (solver, what) failures and a list of harness problems (witness rejected)."""
+    (solver, what, err_rel) failures and a list of harness problems (witness rejected)."""
     fails, problems = [], []
     pts = case["pts"]
     k = len(pts)
+    L = max(1.0, max(abs(x) for y in pts for x in y))
+    INF = float("inf")
+    for name in e["decode_bad"]:
+        problems.append(f"decoding checksum mismatch ({name})")
     j = r["jolt"]
     if "exc" in j:
-        fails.append(("jolt", f"raised {j['exc']}: {j.get('exc_msg', '')}"))
+        fails.append(("jolt", f"raised {j['exc']}: {j.get('exc_msg', '')}", INF))
     elif not j["success"]:
-        fails.append(("jolt", "get_closest_point_to_origin(Y, n, inf) returned success=False"))
+        fails.append(("jolt", "get_closest_point_to_origin(Y, n, inf) returned success=False", INF))
     else:
         if not j["y_unchanged"]:
-            fails.append(("jolt", "Y was modified"))
+            fails.append(("jolt", "Y was modified", INF))
         if "jolt" not in e["certs"]:
-            fails.append(("jolt", f"unusable result: v={j.get('v')} bits={j.get('bits')}"))
+            fails.append(("jolt", f"unusable result: v={j.get('v')} bits={j.get('bits')}", INF))
     o = r["orig"]
     if "exc" in o:
-        fails.append(("orig", f"raised {o['exc']}: {o.get('exc_msg', '')}"))
+        fails.append(("orig", f"raised {o['exc']}: {o.get('exc_msg', '')}", INF))
     else:
         if not o["built_ok"]:
             problems.append("harness could not build the simplex in the requested order")
         if "orig" not in e["certs"]:
-            fails.append(("orig", f"unusable result: v={o.get('v')} idx={o.get('idx')} bary={o.get('bary')}"))
+            fails.append(("orig", f"unusable result: v={o.get('v')} idx={o.get('idx')} bary={o.get('bary')}", INF))
         else:
             sub_pts = unhex(o["sub"])
             want = [x for i in o["idx"] for x in pts[i]]
             if sub_pts != [float(x) for x in want]:
-                fails.append(("orig", "simplex.points[:n] after the call are not the input points named by indices_polytope1"))
+                fails.append(("orig", "simplex.points[:n] after the call are not the input points named by indices_polytope1", INF))
             if len(set(o["idx"])) != len(o["idx"]):
-                fails.append(("orig", f"returned subset repeats an index: {o['idx']}"))
+                fails.append(("orig", f"returned subset repeats an index: {o['idx']}", INF))
+            if o["n"] != len(o["idx"]):
+                fails.append(("orig", "len(simplex) differs from the number of returned indices", INF))
     for name in ("jolt", "orig"):
         c3 = e["certs"].get(name)
         if c3 is None:
             continue
         res = r[name]
-        p = unhex(res["v"])
+        sub = bits_idx(res["bits"], k) if name == "jolt" else res["idx"]
+        mag = e["mag"][name]
         if not c3[0]:
-            problems.append("oracle witness rejected by kkt_cert (tau=0): cannot judge")
+            problems.append("oracle witness rejected by kkt_z: cannot judge")
             continue
-        L = max(1.0, max(abs(x) for y in pts for x in y))
         if not c3[1]:
-            fails.append((name, f"norm {norm(p)!r} differs from the minimum {norm(e['q'])!r} by more than 1e-9*{L!r} "
-                                f"(returned subset {bits_idx(res['bits'], k) if name == 'jolt' else res['idx']}, optimal carrier {e['S']})"))
+            fails.append((name, f"norm {mag['norm']!r} exceeds the minimum {e['nq']!r} by more than 1e-9*{L!r} "
+                                f"(returned subset {sub}, optimal carrier {e['S']})", max(mag["err"], mag["hull"]) / L))
         if not c3[2]:
-            fails.append((name, f"returned point is farther than 1e-9*{L!r} from the hull of the returned subset "
-                                f"{bits_idx(res['bits'], k) if name == 'jolt' else res['idx']}"))
+            fails.append((name, f"returned point is {mag['hull']!r} (> 1e-9*{L!r}) away from the hull of the returned subset {sub}",
+                          max(mag["err"], mag["hull"]) / L))
     b = e["certs"].get("bary")
-    if b is not None and not b[0]:
-        fails.append(("orig", f"barycentric weights {unhex(o['bary'])} are not >=0 / sum to 1 / reproduce the point from the subset {o['idx']} within tolerance"))
+    if b is not None and not b:
+        fails.append(("orig", f"barycentric weights {unhex(o['bary'])} are not >=0 / sum to 1 / reproduce the point from the subset {o['idx']} within tolerance", INF))
     return fails, problems
 
 
-def compare_model(case, r, e):
+def _spread(vals0, vals_list):
+    """per-component max |x_i - x_0| over the perturbed model runs"""
+    sp = [0.0] * len(vals0)
+    for vs in vals_list:
+        for i, (a, b) in enumerate(zip(vals0, vs)):
+            sp[i] = max(sp[i], abs(float(a) - float(b)))
+    return sp
+
+
+def compare_jolt(case, r, e, extra=None):
     """Correspondence model (binary64) vs implementation for the Jolt solver.
-    Returns (status, detail): status in ok | skipped-unstable | mismatch."""
+    Returns (status, detail): status in ok | skipped-unstable | skipped-exc | suspect | mismatch."""
     j = r["jolt"]
-    m = e["model"][0]
+    ms = e["jolt_model"] + (extra or [])
+    m = ms[0]
     if "exc" in j:
         return "skipped-exc", ""
     if m[0] != (1 if j["success"] else 0):
         return "mismatch", f"success flag: impl {j['success']} model {m[0]}"
     if not j["success"]:
         return "ok", ""
+    pv = e["jolt_prev"]
+    if j["ok_prev_equal"] or not j["ok_prev_next"] or pv[0] != 0:
+        return "mismatch", (f"final comparison v_len_sq < prev: impl with prev=v_len_sq -> {j['ok_prev_equal']}, "
+                            f"with prev=next(v_len_sq) -> {j['ok_prev_next']}; model with prev=v_len_sq -> {pv[0]}")
     v = unhex(j["v"])
     vl = float.fromhex(j["v_len_sq"])
-    exact = not (case["gen"].startswith("real") or case["gen"] == "corpus")
-    if exact or not e["model"][1:]:
-        mv = [float(x) for x in m[1][:3]]
+    ex2 = sum(Fr(x) * Fr(x) for x in v)
+    if abs(Fr(vl) - ex2) > Fr(4, 2 ** 53) * ex2:
+        return "mismatch", f"v_len_sq {vl!r} is not np.dot(v, v) = {float(ex2)!r} within 2 ulp"
+    mv = [float(x) for x in m[1][:3]]
+    if is_exact_stream(case["gen"]):
         if m[2] != j["bits"]:
-            return "mismatch", f"bit set: impl {j['bits']} model {m[2]}"
-        if exact and (mv != v or float(m[1][3]) != vl):
-            return "mismatch", f"point/len: impl {v} {vl} model {m[1]}"
+            return "mismatch", f"bit set: impl {j['bits']} model {m[2]} (exact stream)"
+        if mv != v:
+            return "mismatch", f"point: impl {v} model {mv} (exact stream)"
+        if abs(float(m[1][3]) - vl) > 4 * 2.0 ** -53 * vl:
+            return "mismatch", f"v_len_sq: impl {vl!r} model {m[1][3]!r}"
         return "ok", ""
-    perts = e["model"][1:]
+    perts = ms[1:]
     stable = all(pm[0] == 1 and pm[2] == m[2] for pm in perts)
     if not stable:
         return "skipped-unstable", ""
     if m[2] != j["bits"]:
-        return "mismatch-bits", f"bit set: impl {j['bits']} model {m[2]} (stable under {len(perts)} perturbations)"
-    norms = [math.sqrt(float(pm[1][3])) for pm in perts] + [math.sqrt(float(m[1][3]))]
-    L = max(1.0, max(abs(x) for y in case["pts"] for x in y))
-    n_i = math.sqrt(vl)
-    wid = 1e-9 * math.sqrt(float(m[1][3])) + 1e-12 * L
-    if not (min(norms) - wid <= n_i <= max(norms) + wid):
-        return "mismatch", f"norm: impl {n_i!r} outside model band [{min(norms)!r}, {max(norms)!r}] +- {wid!r}"
+        return "suspect", f"bit set: impl {j['bits']} model {m[2]} (stable under {len(perts)} perturbations)"
+    L = max(abs(x) for y in case["pts"] for x in y)
+    sp = _spread(m[1], [pm[1] for pm in perts])
+    for i in range(3):
+        if abs(v[i] - mv[i]) > 4 * sp[i] + 16 * EPS * L:
+            return "suspect", f"point[{i}]: impl {v[i]!r} model {mv[i]!r} spread {sp[i]!r}"
+    if abs(vl - float(m[1][3])) > 4 * sp[3] + 16 * EPS * max(vl, float(m[1][3])):
+        return "suspect", f"v_len_sq: impl {vl!r} model {m[1][3]!r} spread {sp[3]!r}"
     return "ok", ""
+
+
+def compare_orig(case, r, e, extra=None):
+    """Correspondence for the original solver's backup procedure (always stability-gated)."""
+    o = r["orig"]
+    ms = e["orig_model"] + (extra or [])
+    m = ms[0]
+    if "exc" in o:
+        return "skipped-exc", ""
+    if m[0] != 1:
+        return "mismatch", f"model status {m[0]}"
+    perts = ms[1:]
+    stable = all(pm[0] == 1 and pm[3] == m[3] for pm in perts)
+    if not stable:
+        return "skipped-unstable", ""
+    if m[3] != o["idx"]:
+        return "suspect", f"ordered indices: impl {o['idx']} model {m[3]} (stable under {len(perts)} perturbations)"
+    v = unhex(o["v"])
+    d2 = float.fromhex(o["dist_sq"])
+    w = unhex(o["bary"])
+    L = max(abs(x) for y in case["pts"] for x in y)
+    sp = _spread(m[1], [pm[1] for pm in perts])
+    for i in range(3):
+        if abs(v[i] - float(m[1][i])) > 4 * sp[i] + 16 * EPS * L:
+            return "suspect", f"search_direction[{i}]: impl {v[i]!r} model {m[1][i]!r} spread {sp[i]!r}"
+    if abs(d2 - float(m[1][3])) > 4 * sp[3] + 16 * EPS * max(d2, float(m[1][3])):
+        return "suspect", f"distance_squared: impl {d2!r} model {m[1][3]!r} spread {sp[3]!r}"
+    spw = _spread(m[2], [pm[2] for pm in perts])
+    if len(w) != len(m[2]):
+        return "suspect", f"number of weights: impl {len(w)} model {len(m[2])}"
+    for i in range(len(w)):
+        if abs(w[i] - float(m[2][i])) > 4 * spw[i] + 16 * EPS:
+            return "suspect", f"barycentric_coordinates[{i}]: impl {w[i]!r} model {m[2][i]!r} spread {spw[i]!r}"
+    return "ok", ""
+
+
+# ------------------------------------------------------------------ case streams
+FINDING_WITNESSES = [
+    ("C18-ORIG-EPS-ABS", [[1e-3, 1e-3, 1e-3], [1e-3, -1e-3, -1e-3], [-1e-3, 1e-3, -1e-3], [-1e-3, -1e-3, 1e-3]]),
+    ("C18-JOLT-EPS-ABS", [[1e-6, 1e-6, 1e-6], [1e-6, -1e-6, -1e-6], [-1e-6, 1e-6, -1e-6], [-1e-6, -1e-6, 1e-6]]),
+    ("C18-JOLT-ILLCOND", [[4.060583375906421, 131.74935434208479, -13.545330546862845],
+                          [1.830719365639091, 59.449072554168794, -6.113935385821806],
+                          [-1.291391467648064, -41.78108855897669, 4.2910217020960415]]),
+    ("C18-ORIG-ILLCOND", [[0.5285397166081399, 0.12548214646434608, -0.09068890719552236],
+                          [-0.14619194565811272, -0.03470773094089517, 0.025084104633260294],
+                          [-0.022860807436796554, -0.005427501300705296, 0.003922579589196088]]),
+]
 
 
 def gen_cases(R, tier, replay):
     cases = []
     if replay:
         c = json.loads(open(replay).read())["case"]
-        c.setdefault("gen", "corpus")
+        c = dict(pts=c["pts"], gen=c.get("gen", "corpus"))
+        if is_exact_stream(c["gen"]) and not all(float(x).is_integer() and abs(x) <= 72 for p in c["pts"] for x in p):
+            c["gen"] = "corpus"
         return [c]
     corpus = cm.VERIF / "corpus" / PID
     if corpus.exists():
         for f in sorted(corpus.glob("*.json")):
             c = json.loads(f.read_text())["case"]
-            c["gen"] = "corpus"
-            cases.append(c)
-    for k in (1, 2, 3):
+            cases.append(dict(pts=c["pts"], gen="corpus"))
+    for kid, pts in FINDING_WITNESSES:
+        cases.append(dict(pts=pts, gen="corpus:" + kid))
+    quick = tier == "quick"
+    for k in (1, 2):
         for pts in lattice_all(k):
             cases.append(dict(pts=pts, gen=f"lattice3:k{k}"))
-    n4 = 4000 if tier == "quick" else 60000
-    seen = set()
-    while len(seen) < n4:
-        pts = lattice_sample(R.rng, 4, (-1, 0, 1))
-        key = tuple(x for p in pts for x in p)
-        if key not in seen:
-            seen.add(key)
-            cases.append(dict(pts=pts, gen="lattice3:k4"))
-    if tier != "quick":
-        for k, n in ((2, 3000), (3, 12000), (4, 25000)):
+    if quick:
+        for k, n in ((3, 2500), (4, 3000)):
+            seen = set()
+            while len(seen) < n:
+                pts = lattice_sample(R.rng, k, (-1, 0, 1))
+                key = tuple(x for p in pts for x in p)
+                if key not in seen:
+                    seen.add(key)
+                    cases.append(dict(pts=pts, gen=f"lattice3:k{k}"))
+    else:
+        for pts in lattice_all(3):
+            cases.append(dict(pts=pts, gen="lattice3:k3"))
+        seen = set()
+        while len(seen) < 60000:
+            pts = lattice_sample(R.rng, 4, (-1, 0, 1))
+            key = tuple(x for p in pts for x in p)
+            if key not in seen:
+                seen.add(key)
+                cases.append(dict(pts=pts, gen="lattice3:k4"))
+        for k, n in ((2, 2000), (3, 8000), (4, 15000)):
             for _ in range(n):
                 cases.append(dict(pts=lattice_sample(R.rng, k, (-2, -1, 0, 1, 2)), gen=f"lattice5:k{k}"))
-    nreal = 2500 if tier == "quick" else 30000
-    for _ in range(nreal):
+    for _ in range(2500 if quick else 30000):
+        cases.append(gen_grid(R.rng))
+    for _ in range(2000 if quick else 30000):
         cases.append(gen_real(R.rng))
+    for _ in range(1000 if quick else 15000):
+        cases.append(gen_scaled(R.rng))
     return cases
+
+
+def site_of(solver):
+    return "get_closest_point_to_origin" if solver == "jolt" else "distance_subalgorithm_with_backup_procedure"
 
 
 def run(tier, seed, replay=None):
     R = cm.Run(PID, "proof", tier, seed)
     R.cov["rule"] = (
-        "case = 1..4 points. Streams: ALL configurations with coordinates in {-1,0,1} for k=1,2,3 (20439); "
-        "distinct seeded sample for k=4 (quick 4000 / thorough 60000 of 531441); thorough: sampled {-2..2}^(3k), k=2,3,4; "
-        "random real configurations: extents (1,s2,s3) with s log-uniform in [1e-12,1], random rotation, origin "
-        "inside/near/far/near-vertex/near-edge, kinds aniso/iso/wellcond/duplicate point/numerically collinear/coplanar; corpus. "
-        "Both solvers run on every case. non-trivial = k>=2 and the optimal carrier (exact oracle, confirmed by kkt_cert) "
-        "is not a single input vertex, or the configuration is affinely dependent; distinct by canonical hash of the points")
+        "case = 1..4 points. Streams: ALL configurations with coordinates in {-1,0,1} for k=1,2 (756), k=3: quick a distinct "
+        "seeded sample of 2500 / thorough all 19683, k=4: distinct seeded sample (quick 3000 / thorough 60000 of 531441); thorough: "
+        "sampled {-2..2}^(3k); integer grids |coordinate| <= 72 with exact duplicates/collinear/coplanar/mirrored points (all "
+        "arithmetic up to degree 6 exact in binary64); random real configurations: extents (1,s2,s3) with s log-uniform in "
+        "[1e-12,1], random rotation, origin inside/near/far/near-vertex/near-edge, kinds aniso/iso/wellcond/duplicate point/"
+        "numerically collinear/coplanar; the same times a global scale 10^U(-7,4); corpus + the four finding witnesses. Both "
+        "solvers run on every case. non-trivial = k>=2 and the optimal carrier (exact oracle, confirmed by kkt_z) is not a "
+        "single input vertex, or the configuration is affinely dependent; distinct by canonical hash of the points")
     R.assumptions += [
-        "general theorems are about the Gallina model Model/Simplex.v in exact real arithmetic; the tie to /repo is the correspondence run here (bit-exact on lattices, stability-gated on reals)",
-        "per-case verdicts are consequences of c18_cert_sound/bary_cert_sound (Checker/Kkt.v) applied to the exact rationals of the implementation's binary64 inputs/outputs; universality over inputs comes from generation",
+        "general theorems are about the Gallina models Model/Simplex.v, Model/SimplexOrig.v in exact real/rational arithmetic; the tie to /repo is the correspondence run here (bit-exact for Jolt on exact streams, stability-gated otherwise)",
+        "per-case verdicts are consequences of c18_z_sound/bary_z_sound (Checker/KktZ.v) applied to the exact values of the implementation's binary64 inputs/outputs; universality over inputs comes from generation",
+        "binary64 literals are decoded by Checker/KktZ.f2z (m*2^e from the kernel's Prim2SF); a checksum of the decoded integers is recomputed in Python for every case",
         "IEEE-754 rounding is not modelled in the theorems; its effect is measured against the property tolerance by the certificates",
         "harness/compat.py import shim; numpy/numba/CPython/OpenBLAS; the harness builds SimplexInfo through set_first_point/add_new_point with zero-initialised arrays",
     ]
@@ -575,99 +821,121 @@ def run(tier, seed, replay=None):
     cases = gen_cases(R, tier, replay)
     results = run_impl_cases(cases, "impl")
     R.cov["evaluations"] = len(cases)
-    n_pert = 8
     try:
-        ev = evaluate(R, cases, results, n_pert, "cases", per_file=250 if tier == "quick" else 400)
+        ev = evaluate(R, cases, results, "cases", per_file=max(40, min(400, len(cases) // (3 * cm.NCPU) + 1)))
     except RuntimeError as ex:
         R.corr_broken.append(f"Coq evaluation of certificates/model failed: {str(ex)[:600]}")
         return R.finish()
 
-    known_ids = {e["id"] for e in R.known}
+    known = {e["id"]: e for e in R.known}
     distinct = set()
-    hist = {}
-    fail_hist = {}
-    corr = dict(ok=0, skipped_unstable=0, mismatch=0, exact_compared=0)
+    hist, fail_hist = {}, {}
+    corr = {s: dict(ok=0, skipped_unstable=0, skipped_exc=0, mismatch=0, exact_compared=0) for s in ("jolt", "orig")}
     suspects = []
-    n_judged = 0
+    cov_codes = dict(jolt=set(), orig=set())
+    n_problems = 0
     for i, (c, r, e) in enumerate(zip(cases, results, ev)):
         g = c["gen"]
-        hist[g] = hist.get(g, 0) + 1
+        gk = "corpus" if g.startswith("corpus") else ":".join(g.split(":")[:2])
+        hist[gk] = hist.get(gk, 0) + 1
         fails, problems = judge(c, r, e)
-        n_judged += 1
         for pb in problems:
+            n_problems += 1
             if len(R.corr_broken) < 5:
-                R.corr_broken.append(f"{pb} (case {cm.canon_hash(c['pts'])})")
-        for solver, what in fails:
-            kids, geo = classify(solver, c["pts"])
-            hit = [k for k in kids if k in known_ids]
-            key = (solver, hit[0] if hit else "UNCLASSIFIED")
-            fail_hist[str(key)] = fail_hist.get(str(key), 0) + 1
+                R.corr_broken.append(f"{pb} (case {c['pts']})")
+        for solver, what, err_rel in fails:
+            kids, geo = classify(solver, g, c["pts"], err_rel)
+            hit = [k for k in kids if k in known]
+            key = f"{solver}:{hit[0] if hit else 'UNCLASSIFIED'}"
+            fail_hist[key] = fail_hist.get(key, 0) + 1
             if hit:
-                R.known_finding(hit[0], next(x["what"] for x in R.known if x["id"] == hit[0]))
+                R.known_finding(hit[0], known[hit[0]]["what"])
             else:
                 R.failure(f"{solver}: {what}", dict(pts=c["pts"], gen=g, solver=solver, candidate_classes=kids,
-                                                   aspect=geo["aspect"], plane_band=geo.get("plane_band")),
-                          site=("get_closest_point_to_origin" if solver == "jolt" else "distance_subalgorithm_with_backup_procedure"))
-        st, detail = compare_model(c, r, e)
-        if st == "ok":
-            corr["ok"] += 1
-            if not g.startswith("real") and g != "corpus":
-                corr["exact_compared"] += 1
-        elif st == "skipped-unstable":
-            corr["skipped_unstable"] += 1
-        elif st == "mismatch-bits":
-            suspects.append((i, detail))
-        elif st == "mismatch":
-            corr["mismatch"] += 1
-            if len(R.corr_broken) < 5:
-                R.corr_broken.append(f"Jolt model vs implementation: {detail} on {c['pts']}")
+                                                   err_rel=err_rel, aspect=geo["aspect"], plane_band=geo["plane_band"],
+                                                   orig_band=geo["orig_band"]), site=site_of(solver))
+        for m in e["jolt_model"]:
+            cov_codes["jolt"].update(m[3])
+        cov_codes["jolt"].update(e["jolt_prev"][1])
+        for m in e["orig_model"]:
+            cov_codes["orig"].update(m[4])
+        for solver, cmp in (("jolt", compare_jolt), ("orig", compare_orig)):
+            st, detail = cmp(c, r, e)
+            if st == "ok":
+                corr[solver]["ok"] += 1
+                if solver == "jolt" and is_exact_stream(g):
+                    corr[solver]["exact_compared"] += 1
+            elif st == "skipped-unstable":
+                corr[solver]["skipped_unstable"] += 1
+            elif st == "skipped-exc":
+                corr[solver]["skipped_exc"] += 1
+            elif st == "suspect":
+                suspects.append((i, solver, detail))
+            elif st == "mismatch":
+                corr[solver]["mismatch"] += 1
+                if len(R.corr_broken) < 5:
+                    R.corr_broken.append(f"{solver} model vs implementation: {detail} on {c['pts']}")
         if len(c["pts"]) >= 2 and (len(e["S"]) > 1 or e["dep"]):
             distinct.add(cm.canon_hash(c["pts"]))
-    # second look at bit-set mismatches on apparently stable real cases: 40 more perturbations
+    # second look at mismatches on apparently stable cases: 40 more perturbations
     if suspects:
         exprs = []
-        for i, _ in suspects:
+        for i, solver, _ in suspects:
             perts = [perturb(R.rng, cases[i]["pts"]) for _ in range(40)]
-            exprs.append("[" + "; ".join(f"jolt_f {fY(pp)}" for pp in perts) + "]%list")
+            f = "jolt_ft" if solver == "jolt" else "orig_ft"
+            exprs.append("[" + "; ".join(f"{f} {fflat(pp)}" for pp in perts) + "]")
         try:
-            outs = cm.coq_eval_lines(PID, HEADER, exprs, tag="recheck", per_file=20)
-            for (i, detail), o in zip(suspects, outs):
-                ms = parse_coq_value(o)
-                m0 = ev[i]["model"][0]
-                if all(pm[0] == 1 and pm[2] == m0[2] for pm in ms):
-                    corr["mismatch"] += 1
+            outs = cm.coq_eval_lines(PID, HEADER, exprs, tag="recheck", per_file=10)
+            for (i, solver, detail), o in zip(suspects, outs):
+                extra = parse_coq_value(o)
+                cmp = compare_jolt if solver == "jolt" else compare_orig
+                st, detail2 = cmp(cases[i], results[i], ev[i], extra)
+                if st in ("suspect", "mismatch"):
+                    corr[solver]["mismatch"] += 1
                     if len(R.corr_broken) < 5:
-                        R.corr_broken.append(f"Jolt model vs implementation: {detail} (still stable under 40 more perturbations) on {cases[i]['pts']}")
+                        R.corr_broken.append(f"{solver} model vs implementation: {detail2} (48 perturbations) on {cases[i]['pts']}")
+                elif st == "ok":
+                    corr[solver]["ok"] += 1
                 else:
-                    corr["skipped_unstable"] += 1
+                    corr[solver]["skipped_unstable"] += 1
         except RuntimeError as ex:
             R.corr_broken.append(f"recheck evaluation failed: {str(ex)[:300]}")
     R.cov["distinct_nontrivial"] = len(distinct)
-    R.cov["judged_by_coq_certificate"] = n_judged
-    R.cov["traces_validated_against_impl"] = corr["ok"]
+    R.cov["judged_by_coq_certificate"] = len(cases)
+    R.cov["harness_problems"] = n_problems
+    R.cov["traces_validated_against_impl"] = corr["jolt"]["ok"] + corr["orig"]["ok"]
     R.cov["correspondence"] = corr
     R.cov["input_histogram"] = hist
     R.cov["failure_histogram"] = fail_hist
+    R.cov["model_branch_coverage"] = {
+        "jolt": dict(covered=len(cov_codes["jolt"] & set(JOLT_CODES)), total=len(JOLT_CODES),
+                     missing=sorted(set(JOLT_CODES) - cov_codes["jolt"])),
+        "orig": dict(covered=len(cov_codes["orig"] & set(ORIG_CODES)), total=len(ORIG_CODES),
+                     missing=sorted(set(ORIG_CODES) - cov_codes["orig"])),
+        "codes": "see the headers of Model/Simplex.v and Model/SimplexOrig.v",
+    }
     R.cov["exhaustive"] = False
-    R.cov["exhaustive_substreams"] = "k=1,2,3 over {-1,0,1}^3 enumerated completely on every run"
-    for c, r in list(zip(cases, results))[:1] + [x for x in zip(cases, results) if x[0]["gen"].startswith("real")][:2]:
+    R.cov["exhaustive_substreams"] = ("k=1,2 over {-1,0,1}^3 enumerated completely on every run; thorough: also k=3 "
+                                      "(the in-Coq lattice theorems of Props/C18.v cover k<=3 and a stated part of k=4 for the models)")
+    reals = [x for x in zip(cases, results) if x[0]["gen"].startswith("real")]
+    for c, r in list(zip(cases, results))[-1:] + reals[:2]:
         R.sample(dict(pts=c["pts"], gen=c["gen"],
                       jolt=dict(v=unhex(r["jolt"]["v"]), bits=r["jolt"]["bits"]) if r["jolt"].get("success") else r["jolt"],
                       orig=dict(v=unhex(r["orig"]["v"]), idx=r["orig"]["idx"], bary=unhex(r["orig"]["bary"])) if "exc" not in r["orig"] else r["orig"]))
-    # proof or tie broke, no failing input yet: targeted search = 3x the real stream + lattice5, certificate-judged
+    # proof or tie broke, no failing input yet: targeted search = more of every stream, certificate-judged
     if (R.proof_broken or R.corr_broken) and not R.violations and not replay:
-        extra = [gen_real(R.rng) for _ in range(6000)] + \
+        extra = [gen_real(R.rng) for _ in range(4000)] + [gen_grid(R.rng) for _ in range(4000)] + \
                 [dict(pts=lattice_sample(R.rng, k, (-2, -1, 0, 1, 2)), gen=f"lattice5:k{k}") for k in (3, 4) for _ in range(3000)]
         res2 = run_impl_cases(extra, "search")
         try:
-            ev2 = evaluate(R, extra, res2, 0, "search", per_file=400)
+            ev2 = evaluate(R, extra, res2, "search", per_file=400)
             R.cov["search_evaluations"] = len(extra)
             for c, r, e in zip(extra, res2, ev2):
                 fails, _ = judge(c, r, e)
-                for solver, what in fails:
-                    kids, geo = classify(solver, c["pts"])
-                    if not [k for k in kids if k in known_ids]:
-                        R.failure(f"{solver}: {what}", dict(pts=c["pts"], gen=c["gen"], solver=solver), site=solver)
+                for solver, what, err_rel in fails:
+                    kids, geo = classify(solver, c["gen"], c["pts"], err_rel)
+                    if not [k for k in kids if k in known]:
+                        R.failure(f"{solver}: {what}", dict(pts=c["pts"], gen=c["gen"], solver=solver), site=site_of(solver))
                         break
                 if R.violations:
                     break
